@@ -40,7 +40,9 @@ class FBuilt(dsl.Built):
         if k == "d":
             return dec_float(j[1])
         if k in VIEWS or k == "x":
-            return getattr(self.e, k)[j[1]]
+            v = getattr(self.e, k)[j[1]]
+            v._pview = k                           # the view as written (property-level typing, dsl.reg_view)
+            return v
         if k == "v":
             return getattr(self.e, j[1])
         a, b = self.expr(j[1]), self.expr(j[2])
@@ -189,13 +191,7 @@ def leaves(j):
 
 def width_W(prog, stmt):
     """32 if the destination or any leaf is at most 4 bytes wide, else 64"""
-    fm = {n: f for n, f, _ in prog["vars"]}
-
-    def narrow(l):
-        if l[0] in ("w", "sw"):
-            return True
-        return l[0] == "v" and FSIZE[fm[l[1]]] <= 4
-    return 32 if narrow(stmt[1]) or any(narrow(l) for l in leaves(stmt[2])) else 64
+    return dsl.pwidth([stmt[2]], {n: f for n, f, _ in prog["vars"]}, dest=stmt[1])
 
 
 # ----------------------------------------------------------------------------- generators
